@@ -43,6 +43,13 @@ func profileByName(name string) Profile {
 		p.Buckets = []string{"b1", "b2"}
 		p.Txs = 18
 		p.ScanHeavy = true
+	case "listidx":
+		// transactions holding several LSet / LTrim calls on different lists
+		p.WKV, p.WList, p.WSet, p.WZSet = 0, 1, 0, 0
+		p.Buckets = []string{"b1", "b2", "b3", "b4", "b5"}
+		p.Txs, p.OpsMin, p.OpsMax = 16, 3, 6
+		p.IdxHeavy = true
+		p.Abort, p.Oversize = 0, 0
 	case "scanbin":
 		// binary keys: 0xFF and 0x00 bytes at the end of keys and prefixes (carry / successor computations)
 		p.WKV = 1
@@ -137,6 +144,15 @@ func profileByName(name string) Profile {
 		p.OpsMin, p.OpsMax = 2, 6
 		p.Buckets = []string{"b1"}
 		p.Keys = []string{"a", "ab", "k1"}
+	case "rawreopen":
+		// like raw, with frequent reopens: the records of read-after-write transactions must replay (C09)
+		p.WKV, p.WList, p.WSet, p.WZSet = 1, 4, 2, 3
+		p.ReadAfterWrite = true
+		p.OpsMin, p.OpsMax = 2, 6
+		p.Buckets = []string{"b1"}
+		p.Keys = []string{"a", "ab"}
+		p.Vals = []string{"a", "a", "a", "b"} // lists of mostly equal elements: LRem counts near the list length are valid when called
+		p.Reopen = 30
 	default:
 		fmt.Fprintln(os.Stderr, "unknown profile", name)
 		os.Exit(2)
@@ -161,13 +177,22 @@ func suiteHist(seed uint64, n int, work, prof string) {
 		suiteOpts(seed, n, work)
 		return
 	case "crash":
-		suiteCrash(seed, n, work, false)
+		suiteCrash(seed, n, work, false, false)
 		return
 	case "power":
-		suiteCrash(seed, n, work, true)
+		suiteCrash(seed, n, work, true, false)
+		return
+	case "crashsparse":
+		suiteCrash(seed, n, work, false, true)
+		return
+	case "powersparse":
+		suiteCrash(seed, n, work, true, true)
 		return
 	case "mergecrash":
-		suiteMergeCrash(seed, n, work)
+		suiteMergeCrash(seed, n, work, false)
+		return
+	case "mergepower":
+		suiteMergeCrash(seed, n, work, true)
 		return
 	case "mergefault":
 		suiteMergeFault(seed, n, work)
